@@ -147,3 +147,74 @@ def show(value, depth=0):
 def exc_obs(exc):
     """Observation of an escaping exception: class name and message."""
     return ('raise', type(exc).__name__, str(exc))
+
+
+# ---------------------------------------------------------------------------------------------------------------------
+# Runtime error messages. The properties fix two messages ("Unknown jump label", "Exceeded maximum script statements");
+# every other BareScriptRuntimeError wording (undefined function, failed include, ...) is the implementation's business,
+# so results are compared by kind and by the name the reference blames, never by exact text.
+
+_WORD = re.compile(r'[A-Za-z_][A-Za-z0-9_]*')
+_QUOTED = re.compile(r'"([^"]*)"')
+MSG_BUDGET = 'Exceeded maximum script statements'
+MSG_LABEL = 'Unknown jump label'
+
+
+def runtime_kind(msg):
+    msg = str(msg)
+    if MSG_LABEL in msg:
+        return 'unknown-label'
+    if msg.startswith(MSG_BUDGET):
+        return 'budget'
+    return 'other'
+
+
+def blamed_name(msg):
+    """The name a runtime error message blames: the first double-quoted text, else the last identifier."""
+    msg = str(msg)
+    q = _QUOTED.findall(msg)
+    if q:
+        return q[0]
+    words = _WORD.findall(msg)
+    return words[-1] if words else ''
+
+
+def budget_names_limit(msg, limit):
+    """A budget error may mention numbers; if it does, the limit must be one of them."""
+    nums = re.findall(r'\d+', str(msg))
+    return not nums or str(limit) in nums
+
+
+def same_result(impl_res, ref_res):
+    """Implementation result vs reference result: equal, or both the same kind of BareScriptRuntimeError blaming the
+    same name (budget errors: the same text up to the implementation's way of writing the limit)."""
+    if impl_res == ref_res:
+        return True
+    if not (isinstance(impl_res, tuple) and isinstance(ref_res, tuple) and impl_res and ref_res and impl_res[0] == ref_res[0] == 'raise'):
+        return False
+    if len(impl_res) == 2 and len(ref_res) == 2:
+        mi, mr = impl_res[1], ref_res[1]
+    elif len(impl_res) >= 3 and len(ref_res) >= 3 and impl_res[1] == ref_res[1] == 'BareScriptRuntimeError':
+        mi, mr = impl_res[2], ref_res[2]
+        if impl_res[3:] != ref_res[3:]:
+            return False
+    else:
+        return False
+    ki, kr = runtime_kind(mi), runtime_kind(mr)
+    if ki != kr:
+        return False
+    if ki == 'budget':
+        return re.findall(r'\d+', str(mi)) == re.findall(r'\d+', str(mr)) or not re.findall(r'\d+', str(mi))
+    name = blamed_name(mr)
+    return name == '' or name in _WORD.findall(str(mi)) or name in _QUOTED.findall(str(mi))
+
+
+_FAIL_WORDS = re.compile(r'fail|error|rais|except', re.I)
+
+
+def is_failure_line(line, name=None):
+    """A debug-mode report of a failed call: a runtime diagnostic line ("BareScript: ...") that speaks of a failure /
+    error (and names the function when `name` is given). The wording itself is not part of any property."""
+    if not isinstance(line, str) or not line.startswith('BareScript:') or not _FAIL_WORDS.search(line):
+        return False
+    return name is None or name in _WORD.findall(line) or name in _QUOTED.findall(line)
